@@ -41,7 +41,8 @@ func checkC03(r *Report, p *Program) {
 	discoveryDefaults(r, p, "R03.16")
 	namespaceScopingTable(r, p, "R03.17")
 	staleParentAfterFinalizerSync(r, p, "R03.18")
-	ownerRefEdits(r, p, "R03.19") // what the hook is shown as "claimed" is controlled: adoption replaces an existing plain reference by the controller reference
+	matchIsSelectorOnly(r, p, "R03.20") // a controlled, selected child is shown to the hook whatever else is true of it (terminating …)
+	ownerRefEdits(r, p, "R03.19")       // what the hook is shown as "claimed" is controlled: adoption replaces an existing plain reference by the controller reference
 	// the children are listed from informers that stay alive while subscribed to (shared with C18)
 	r18_2(r, p)
 	// which children are claimed (and so shown to the hook) is decided by makeSelector: generated ⇒ controller-uid only (shared with C04)
